@@ -47,6 +47,8 @@ func init() {
 		Mutants: []Mutant{
 			{Name: "shouldPush-skip-author-blacklist", File: "pubsub.go", Old: "\tif p.blacklist.Contains(msg.GetFrom()) {", New: "\tif p.blacklist.Contains(msg.GetFrom()) && msg.GetFrom() != src {", Expect: "R16.1"},
 			{Name: "blacklist-arm-no-router-notify", File: "pubsub.go", Old: "\t\t\t\tp.clearPeerFromTopicsState(pid)\n\t\t\t\tp.rt.OnClosedOutboundStream(pid)\n\t\t\t}\n\n\t\tcase <-ctx.Done():", New: "\t\t\t\tp.clearPeerFromTopicsState(pid)\n\t\t\t}\n\n\t\tcase <-ctx.Done():", Expect: "R16.2"},
+			{Name: "blacklist-arm-skip-when-already-listed", File: "pubsub.go", Old: "\t\t\tp.blacklist.Add(pid)\n\n\t\t\tq, ok := p.peers[pid]", New: "\t\t\tif !p.blacklist.Add(pid) {\n\t\t\t\tcontinue\n\t\t\t}\n\n\t\t\tq, ok := p.peers[pid]", Expect: "R16.2"},
+			{Name: "closed-stream-mesh-removal-conditional", File: "gossipsub.go", Old: "\tdelete(gs.peers, p)\n\tfor topic, peers := range gs.mesh {", New: "\tif _, known := gs.peers[p]; !known {\n\t\treturn\n\t}\n\tdelete(gs.peers, p)\n\tfor topic, peers := range gs.mesh {", Expect: "R07.5"},
 			{Name: "newstream-hello-before-blacklist", File: "pubsub.go", Old: "\t\t\tif p.blacklist.Contains(pid) {\n\t\t\t\tp.logger.Warn(\"closing stream for blacklisted peer\", \"peer\", pid)", New: "\t\t\tif p.blacklist.Contains(pid) && q != nil && q.closed {\n\t\t\t\tp.logger.Warn(\"closing stream for blacklisted peer\", \"peer\", pid)", Expect: "R16.3"},
 			{Name: "pending-peers-skip-check", File: "pubsub.go", Old: "\t\tif p.blacklist.Contains(pid) {\n\t\t\tp.logger.Warn(\"ignoring connection from blacklisted peer\", \"peer\", pid)\n\t\t\tcontinue\n\t\t}", New: "\t\tif p.blacklist.Contains(pid) && len(p.peers) > 0 {\n\t\t\tp.logger.Warn(\"ignoring connection from blacklisted peer\", \"peer\", pid)\n\t\t\tcontinue\n\t\t}", Expect: "R16.3"},
 			{Name: "timecached-contains-other-key", File: "blacklist.go", Old: "\treturn b.tc.Has(p.String())", New: "\treturn b.tc.Has(string(p))", Expect: "R16.5"},
@@ -507,6 +509,16 @@ func runC16(c *RuleCtx) {
 			ok, _ := g.MustPass(Point{body, 0}, PassOpts{Until: until}, p.callPred(f, fnBLAdd))
 			c.Check(ok, "R16.2", f.Name, "blacklist.Add on every path of the arm", clause, "always added", "the arm can complete without blacklist.Add")
 			present := AtomLookupOK("queue present in p.peers", isFieldOf("PubSub.peers"), nil)
+			// the cleanup decision is reached on every path of the arm (no early exit, e.g. on Add's result)
+			okLook, _ := g.MustPass(Point{body, 0}, PassOpts{Until: until}, func(n ast.Node) bool {
+				for _, e := range append(g.AtomEdges(present, true), g.AtomEdges(present, false)...) {
+					if condNodeOf(e) == n && within(n, clause) {
+						return true
+					}
+				}
+				return false
+			})
+			c.Check(okLook, "R16.2", f.Name, "queue lookup (cleanup decision) on every path of the arm", clause, "always reached", "the blacklist arm can leave before looking up the peer's queue: an already connected peer would keep its queue, topic membership and mesh slots")
 			var edges []Edge
 			for _, e := range g.AtomEdges(present, true) {
 				if within(e.From.Nodes[len(e.From.Nodes)-1], clause) {
@@ -584,6 +596,16 @@ func runC16(c *RuleCtx) {
 			c.Undecided("R16.3", f.Name, "queue creation", f.Decl, "no store into p.peers")
 		}
 	}
+	// the router-side half of R16.2: OnClosedOutboundStream removes the peer from every mesh and fanout map (shared C07 R07.5)
+	{
+		sub := &RuleCtx{P: p, Prop: c.Prop, Min: map[string]int{}}
+		runC07(sub)
+		for _, o := range sub.Obs {
+			if o.Rule == "R07.5" && strings.Contains(o.Key, "OnClosedOutboundStream") {
+				c.Obs = append(c.Obs, o)
+			}
+		}
+	}
 	// R16.4 pushes take their queue from p.peers in the same step
 	checkPushReceivers(c, "R16.4")
 	// R16.5 key agreement
@@ -602,7 +624,8 @@ func runC16(c *RuleCtx) {
 		c.Check(ka != "" && ka == kc, "R16.5", impl, "Add and Contains use the same key", add.Decl, "key expression: "+ka, "Add keys by "+ka+" but Contains keys by "+kc)
 	}
 	c.Min["R16.1"] = 4
-	c.Min["R16.2"] = 5
+	c.Min["R16.2"] = 6
+	c.Min["R07.5"] = 4
 	c.Min["R16.3"] = 4
 	c.Min["R16.4"] = 5
 	c.Min["R16.5"] = 2
